@@ -187,7 +187,8 @@ private:
         u16 z = 0;
 
         u32 current_src = 0, current_dst = 0;
-        u16 counter0 = 0, counter1 = 0, counter2 = 0;
+        // 32-bit so that `counter0 += 2` in double-word mode cannot wrap past a 16-bit size
+        u32 counter0 = 0, counter1 = 0, counter2 = 0;
         u16 running = 0;
         u16 ahbm_channel = 0;
 
